@@ -222,6 +222,7 @@ def run(prop, tier, replay=None):
     rep = Report(prop, tier)
     rng = random.Random(seed() * 1000003 + {"C01": 1, "C02": 2, "C16": 16}.get(prop, 0))
     rep.check_proofs()
+    smin_listed = any(f.get("id") == "signed-min" and f.get("status") == "open" for f in load_findings())
     n_schemas, n_values = (300, 10) if tier == "quick" else (3000, 24)
     if prop == "C16":
         n_schemas, n_values = (150, 6) if tier == "quick" else (1500, 12)
@@ -418,6 +419,14 @@ def run(prop, tier, replay=None):
         rep.hist("decode_outcomes", cls)
         # ---- direct oracles (the property itself)
         if kind in ("own", "spec", "own-noncanonical"):
+            if cls == "value" and got != mv and smin_listed and \
+                    gen.canon_smin(d, ("struct", name), got) == gen.canon_smin(d, ("struct", name), mv):
+                if prop in ("C01", "C02"):  # C16 is about truncation, not about the value of complete encodings
+                    rep.known_finding("a signed field holding its minimum -2^(N-1) decodes as +2^(N-1) "
+                                      "(witness: struct A { x @0: i8 }, bytes [128] -> 128); kept because the repository's own "
+                                      "test test_roundtrip_decoding_8_byte_types requires +2^63 to round-trip through an i64")
+                rep.hist("known_finding_cases", "signed-min")
+                continue
             if cls != "value" or got != mv:
                 rep.cov["disagreements_checked"] += 1
                 rep.violation(dict(base, kind="roundtrip", observed=(cls, got if cls == "value" else val),
@@ -456,6 +465,10 @@ def run(prop, tier, replay=None):
         else:
             exp = (pm.get("err"), None)
         obs = (cls, got) if cls == "value" else (cls, None)
+        if exp != obs and smin_listed and exp[0] == "value" and obs[0] == "value" and \
+                gen.canon_smin(d, ("struct", name), exp[1]) == gen.canon_smin(d, ("struct", name), obs[1]):
+            rep.hist("known_finding_cases", "signed-min")
+            continue
         if exp != obs:
             rep.cov["disagreements_checked"] += 1
             # the model says overrun and the implementation fabricated a value: property C16 itself
@@ -496,6 +509,8 @@ def run(prop, tier, replay=None):
         check_vectors(rep)
     if prop == "C16":
         probe_zero_width(rep)
+    if prop in ("C01", "C02"):
+        probe_signed_min(rep, smin_listed)
 
     rep.cov["rule"] = (
         "schemas from a seeded generator over every type constructor (depth<=3, widths 1..64 with boundary mass, "
@@ -607,8 +622,12 @@ def check_vectors(rep):
         impl_ok = "ok" in ir and ir["ok"]["enc"] == by
         if impl_ok:
             try:
-                d = gen.Desc()
-                impl_ok = _vec_model(sds[sch], st, ir["ok"]["dec"]) == mv
+                got = _vec_model(sds[sch], st, ir["ok"]["dec"])
+                impl_ok = got == mv
+                if not impl_ok and any(f.get("id") == "signed-min" and f.get("status") == "open" for f in load_findings()):
+                    if _vec_model(sds[sch], st, ir["ok"]["dec"], smin=True) == _vec_model(sds[sch], st, pyv, smin=True):
+                        rep.hist("known_finding_cases", "signed-min-vector")
+                        impl_ok = True
             except Exception:
                 impl_ok = False
         if not impl_ok:
@@ -633,11 +652,14 @@ def check_vectors(rep):
         rep.proof_details.append("Generated/Vectors.lean failed to build: " + out[-800:])
 
 
-def _vec_model(sd, struct, py):
-    """model value of a decoded dict, following the to_dict() types"""
+def _vec_model(sd, struct, py, smin=False):
+    """model value of a decoded dict, following the to_dict() types (`smin`: identify the signed
+    minimum with its unfixed decoding, the class of the recorded finding)"""
 
     def go(t, v):
         k = t["type"]
+        if k == "signed" and smin and abs(v) == 1 << (int(t["name"][1:]) - 1):
+            return "smin"
         if k in ("unsigned", "signed", "Enum"):
             return v
         if k == "float":
@@ -681,3 +703,17 @@ def probe_zero_width(rep):
         else:
             rep.violation(dict(ZERO_WIDTH_WITNESS, kind="work", observed=cls,
                                what="work not bounded by input length"))
+
+
+def probe_signed_min(rep, listed):
+    w = {"text": 'version: "3"\nstruct A {\n    x @ 0: i8,\n}\n', "struct": "A", "bytes": [128]}
+    r = run_cases("harness.codec", "w_decode", [w], timeout_s=30)[0]
+    cls, val = canon_impl_result(r)
+    rep.cov["signed_min_witness"] = [cls, val if cls == "value" else None]
+    if cls == "value" and val == {"x": 128}:
+        if listed:
+            rep.known_finding("a signed field holding its minimum -2^(N-1) decodes as +2^(N-1) "
+                              "(witness: struct A { x @0: i8 }, bytes [128] -> 128); kept because the repository's own "
+                              "test test_roundtrip_decoding_8_byte_types requires +2^63 to round-trip through an i64")
+        else:
+            rep.violation(dict(w, kind="roundtrip", observed=val, what="i8 -128 decodes as 128"))
